@@ -138,13 +138,13 @@ let run_sstcp kind key ikeys users mode own_salt addr now ops =
              c_users = (if users = "none" then None else Some (List.map (fun u ->
                match String.split_on_char ':' u with [h; k] -> { u_hash = unhex h; u_key = unhex k } | _ -> failwith "user") (csv users))) } in
   let md = if mode = "client" then Client else Server in
-  let now = n_of_int (int_of_string now) in
+  let now = ref (n_of_int (int_of_string now)) in
   let new_sess () = { s_mode = md; s_salt = unhex own_salt; s_req_salt = None; s_user = None;
                       s_addr = (if addr = "-" then None else Some (parse_addr addr)) } in
   let cache = ref [] and sess = ref (new_sess ()) and cd = ref codec_new and buf = ref [] and dead = ref false in
   let cur = ref 0 and parked = ref [] in
   let dec (s, d) src =
-    let (c', r) = ss_decode prims cx now !cache s d src in
+    let (c', r) = ss_decode prims cx !now !cache s d src in
     cache := c';
     match r with
     | Ok (((s', d'), src'), it) -> Ok (((s', d'), src'), it)
@@ -152,8 +152,9 @@ let run_sstcp kind key ikeys users mode own_salt addr now ops =
   let outs = List.map (fun op ->
     if op = "" then None else
     let c = op.[0] and arg = String.sub op 1 (String.length op - 1) in
-    if !dead && c <> 'N' && c <> 'S' then Some "SKIP" else
+    if !dead && c <> 'N' && c <> 'S' && c <> 'T' then Some "SKIP" else
     match c with
+    | 'T' -> now := n_of_int (int_of_string arg); Some "CLOCK"
     | 'S' ->
       let k = int_of_string arg in
       parked := (!cur, (!sess, !cd, !buf, !dead)) :: List.remove_assoc !cur !parked;
@@ -163,7 +164,7 @@ let run_sstcp kind key ikeys users mode own_salt addr now ops =
       cur := k; Some (Printf.sprintf "CONN%d" k)
     | 'N' -> sess := new_sess (); cd := codec_new; buf := []; dead := false; Some "NEW"
     | 'E' | 'e' ->
-      (match ss_encode prims cx now [] !sess !cd (unhex arg) with
+      (match ss_encode prims cx !now [] !sess !cd (unhex arg) with
        | Ok (cd', out) -> cd := cd'; Some (if c = 'E' then "OK " ^ hx out else "OK")
        | Err e -> dead := true; Some ("ERR " ^ string_of_err e)
        | Panic -> dead := true; Some "PANIC")
@@ -544,18 +545,40 @@ let run_ssudp (fields : string list) : string =
     let cx = uctx_of kind "client" key ikeys "none" in
     let rp = (rp = "1") and now = n_of_int (int_of_string now) in
     let st = ref (cstate_new N0) and dead = ref false in
+    let dgram_in d =
+      (match client_dgram_decode prims cx rp now !st d with
+       | Ok (st', None) -> st := st'; Some "NONE"
+       | Ok (st', Some (p, a)) -> st := st'; Some (Printf.sprintf "ITEM %s %s" (hx p) (addr_str a))
+       | Err e -> Some ("ERR " ^ string_of_err e)         (* UdpFramed: the error is reported, the codec lives on *)
+       | Panic -> dead := true; Some "PANIC") in
     let outs = List.filter_map (fun op ->
       if op = "" then None else if !dead then Some "SKIP" else
       let c = op.[0] and arg = String.sub op 1 (String.length op - 1) in
       match c with
       | 'P' ->
         st := { !st with cs_sess = { !st.cs_sess with us_pid = n_of_hex arg } }; Some "SET"
-      | 'D' ->
-        (match client_dgram_decode prims cx rp now !st (unhex arg) with
-         | Ok (st', None) -> st := st'; Some "NONE"
-         | Ok (st', Some (p, a)) -> st := st'; Some (Printf.sprintf "ITEM %s %s" (hx p) (addr_str a))
-         | Err e -> Some ("ERR " ^ string_of_err e)         (* UdpFramed: the error is reported, the codec lives on *)
-         | Panic -> dead := true; Some "PANIC")
+      | 'D' -> dgram_in (unhex arg)
+      | 'R' ->
+        (* a well-formed server datagram addressed to client session (own id xor x); the model's own session id is 0.
+           Built with the model's own server-side encoder under the client's key (what a server does for this client). *)
+        (match String.split_on_char ',' arg with
+         | ssid :: pid :: tag :: x :: damage ->
+           let t = n_of_hex tag in
+           let scx = { uc_kind = kind_of kind; uc_mode = Server; uc_key = unhex key; uc_ikeys = []; uc_users = None } in
+           let rnd = List.init (match kind_of kind with K_A128 -> 16 | K22_CC8 | K22_CC20 -> 24 | _ -> 32) (fun _ -> N0) in
+           let s = { us_csid = n_of_hex x; us_ssid = n_of_hex ssid; us_pid = n_of_hex pid; us_user = None } in
+           (match ssu_encode prims scx now rnd [] s (AV4 ([n_of_int 10; N0; N0; t], n_of_int 53)) [t; t] with
+            | Ok pkt ->
+              (* damaged in transit: `t` = the last byte lost, `f<n>` = bit n (mod length) flipped *)
+              let pkt = (match damage with
+                | ["t"] -> take_l (List.length pkt - 1) pkt
+                | [d] when String.length d > 1 && d.[0] = 'f' ->
+                  let bit = int_of_string (String.sub d 1 (String.length d - 1)) mod (List.length pkt * 8) in
+                  List.mapi (fun i b -> if i = bit / 8 then n_of_int ((int_of_n b) lxor (1 lsl (bit mod 8))) else b) pkt
+                | _ -> pkt) in
+              dgram_in pkt
+            | _ -> Some "MODEL-CRAFT-FAILED")
+         | _ -> failwith "dg R")
       | _ ->
         (match String.split_on_char ',' arg with
          | [a; p] ->
